@@ -1,11 +1,17 @@
 // Package c17: "every launched task ends with exactly one terminal status and no survivors".
 //
-// Input  : (kind behaviour (op …))
+// Input  : (kind behaviour (op …))  or  (kind behaviour (op …) shape)
 //
 //	kind      := basic | hook | ctl | nodata
-//	behaviour := ok | fail | sig | fork | nobin            (basic, hook: /bin/sh child scripts)
+//	behaviour := ok | fail | sig | fork | nobin            (basic, hook: child scripts / the vh binary in child mode)
 //	           | noport | nobin | occ | occstay | occign | occfork | occfail   (ctl; occ* = fake OCC device)
 //	op        := launch | tick | start | stop | conf | trigger | kill | await
+//	shape     := sh | sha | ex | exa      how the command reaches prepareTaskCmd (TaskCommandInfo.Shell / .Arguments):
+//	             sh  = through /bin/sh -c, no arguments      sha = through /bin/sh -c, value + arguments
+//	             ex  = exec'd directly, no arguments         exa = exec'd directly with arguments
+//	             omitted = sh (nobin: ex — a command that cannot be started has no shell form)
+//
+// The MODEL does not see the shape: the same (kind behaviour ops) must give the same observation for every shape.
 //
 // Every op is one event delivered to the REAL executor event loop (LAUNCH, MESSAGE
 // transition/trigger, KILL) or one asynchronous happening made deterministic:
@@ -102,6 +108,7 @@ func runOnce(input string) (caseOut, error) {
 		for _, l := range strings.Fields(string(b)) {
 			if p, err := strconv.Atoi(l); err == nil && p > 1 {
 				_ = syscall.Kill(-p, syscall.SIGKILL)
+				_ = syscall.Kill(p, syscall.SIGKILL)
 			}
 		}
 	}
@@ -239,7 +246,50 @@ var basicBehs = []string{"ok", "fail", "sig", "fork", "nobin"}
 var ctlBehs = []string{"noport", "nobin", "occ", "occstay", "occign", "occfork", "occfail"}
 var allOps = []string{"tick", "start", "stop", "conf", "trigger", "kill", "await"}
 
-func mkCase(kind, beh string, ops []string) fw.Case {
+// command shapes; the first is the one an input without a fourth element has (nobin: ex)
+var shapes = []string{"sh", "sha", "ex", "exa"}
+
+func defaultShape(beh string) string {
+	if beh == "nobin" {
+		return "ex"
+	}
+	return "sh"
+}
+
+// shapeOf: the command shape of a parsed input.
+func shapeOf(in *sx.Node) string {
+	if in.Len() < 4 {
+		return defaultShape(in.At(1).Str())
+	}
+	return in.At(3).Str()
+}
+
+// validShape: every behaviour in every shape, except that a command that cannot be started is never a shell
+// command and that a task without data has no command at all.
+func validShape(kind, beh, shape string) bool {
+	if kind == "nodata" {
+		return shape == "sh"
+	}
+	switch shape {
+	case "sh", "sha":
+		return beh != "nobin"
+	case "ex", "exa":
+		return true
+	}
+	return false
+}
+
+func shapesFor(kind, beh string) []string {
+	var out []string
+	for _, s := range shapes {
+		if validShape(kind, beh, s) {
+			out = append(out, s)
+		}
+	}
+	return out
+}
+
+func mkCase(kind, beh string, ops []string, shape string) fw.Case {
 	l := sx.L()
 	for _, o := range ops {
 		l.Add(sx.A(o))
@@ -249,7 +299,11 @@ func mkCase(kind, beh string, ops []string) fw.Case {
 	if n < 5 {
 		lt = "len=" + strconv.Itoa(n)
 	}
-	return fw.Case{Input: sx.L(sx.A(kind), sx.A(beh), l).String(), Tags: []string{"kind=" + kind, "beh=" + beh, lt}}
+	in := sx.L(sx.A(kind), sx.A(beh), l)
+	if shape != defaultShape(beh) {
+		in.Add(sx.A(shape))
+	}
+	return fw.Case{Input: in.String(), Tags: []string{"kind=" + kind, "beh=" + beh, lt, "shape=" + shape}}
 }
 
 // expensive reports schedules that are slow by construction (escalation timers).
@@ -306,56 +360,86 @@ func randomOps(r *rng.R, kind string, n int) []string {
 
 func generate(tier string, r *rng.R) []fw.Case {
 	var cs []fw.Case
-	exLen, nRandom, nCtl, maxLen, slowBudget := 2, 150, 50, 7, 6
+	exLen, nRandom, nCtl, maxLen, slowBudget, slowShape := 2, 150, 50, 7, 6, 3
 	if tier == "thorough" {
-		exLen, nRandom, nCtl, maxLen, slowBudget = 3, 3000, 600, 9, 80
+		exLen, nRandom, nCtl, maxLen, slowBudget, slowShape = 3, 3000, 600, 9, 80, 30
 	}
-	slow := 0
+	// schedules that are slow by construction are capped: per command shape, so that every shape gets its share
+	slow := map[string]int{}
 	var slowCs []fw.Case // started first, so that their timers overlap with everything else
-	add := func(kind, beh string, ops []string) {
+	add := func(kind, beh string, ops []string, shape string) {
 		if expensive(kind, beh, ops) {
-			if slow >= slowBudget {
+			budget := slowShape
+			if shape == defaultShape(beh) {
+				budget = slowBudget
+			}
+			if slow[shape] >= budget {
 				return
 			}
-			slow++
-			slowCs = append(slowCs, mkCase(kind, beh, ops))
+			slow[shape]++
+			slowCs = append(slowCs, mkCase(kind, beh, ops, shape))
 			return
 		}
-		cs = append(cs, mkCase(kind, beh, ops))
+		cs = append(cs, mkCase(kind, beh, ops, shape))
 	}
 	// a task without data: the launch is refused (TASK_FAILED), every later request finds no task
 	for _, ops := range allSchedules(exLen - 1) {
-		add("nodata", "ok", ops)
+		add("nodata", "ok", ops, "sh")
 	}
-	// every schedule up to exLen steps for basic and hook tasks, up to exLen-1 for controllable ones
-	for _, kind := range []string{"basic", "hook"} {
-		for _, beh := range basicBehs {
-			for _, ops := range allSchedules(exLen) {
-				add(kind, beh, ops)
+	// every schedule up to exLen steps for basic and hook tasks, up to exLen-1 for controllable ones — first in the
+	// shape every behaviour was written in, then crossed with every other command shape (thorough tier: the
+	// three-step level only for the default shape and for `ex`; the shapes with arguments stop at two steps)
+	lenFor := func(shape, beh string) int {
+		if tier == "thorough" && shape != defaultShape(beh) && shape != "ex" {
+			return exLen - 1
+		}
+		return exLen
+	}
+	for _, other := range []bool{false, true} {
+		for _, kind := range []string{"basic", "hook"} {
+			for _, beh := range basicBehs {
+				for _, shape := range shapesFor(kind, beh) {
+					if (shape != defaultShape(beh)) != other {
+						continue
+					}
+					for _, ops := range allSchedules(lenFor(shape, beh)) {
+						add(kind, beh, ops, shape)
+					}
+				}
+			}
+		}
+		for _, beh := range ctlBehs {
+			for _, shape := range shapesFor("ctl", beh) {
+				if (shape != defaultShape(beh)) != other {
+					continue
+				}
+				for _, ops := range allSchedules(lenFor(shape, beh) - 1) {
+					add("ctl", beh, ops, shape)
+				}
 			}
 		}
 	}
-	for _, beh := range ctlBehs {
-		for _, ops := range allSchedules(exLen - 1) {
-			add("ctl", beh, ops)
-		}
-	}
-	// longer random schedules
+	// longer random schedules, each in a random shape (drawn last: kind, behaviour and steps are the ones the
+	// stream had before shapes existed)
 	for i := 0; i < nRandom; i++ {
 		q := r.Fork()
 		kind := rng.Pick(q, []string{"basic", "basic", "hook"})
-		add(kind, rng.Pick(q, basicBehs), randomOps(q, kind, q.Range(3, maxLen)))
+		beh := rng.Pick(q, basicBehs)
+		ops := randomOps(q, kind, q.Range(3, maxLen))
+		add(kind, beh, ops, rng.Pick(q, shapesFor(kind, beh)))
 	}
 	for i := 0; i < nCtl; i++ {
 		q := r.Fork()
-		add("ctl", rng.Pick(q, ctlBehs), randomOps(q, "ctl", q.Range(2, maxLen-2)))
+		beh := rng.Pick(q, ctlBehs)
+		ops := randomOps(q, "ctl", q.Range(2, maxLen-2))
+		add("ctl", beh, ops, rng.Pick(q, shapesFor("ctl", beh)))
 	}
 	return append(slowCs, cs...)
 }
 
 func nontrivial(input, obs string) bool {
 	in, err := sx.Parse(input)
-	if err != nil || in.Len() != 3 {
+	if err != nil || (in.Len() != 3 && in.Len() != 4) {
 		return false
 	}
 	ops := in.At(2)
@@ -373,7 +457,7 @@ func nontrivial(input, obs string) bool {
 
 func shrinkCands(input string) []string {
 	in, err := sx.Parse(input)
-	if err != nil || in.Len() != 3 {
+	if err != nil || (in.Len() != 3 && in.Len() != 4) {
 		return nil
 	}
 	var out []string
@@ -381,18 +465,26 @@ func shrinkCands(input string) []string {
 	for i := range ops.List {
 		n := sx.L()
 		n.List = append(append([]*sx.Node{}, ops.List[:i]...), ops.List[i+1:]...)
-		out = append(out, sx.L(in.At(0), in.At(1), n).String())
+		c := sx.L(in.At(0), in.At(1), n)
+		if in.Len() == 4 {
+			c.Add(in.At(3))
+		}
+		out = append(out, c.String())
+	}
+	if in.Len() == 4 {
+		// the same schedule in the default command shape (smaller: if it still fails the shape does not matter)
+		out = append(out, sx.L(in.At(0), in.At(1), ops).String())
 	}
 	return out
 }
 
 func init() {
-	if v := os.Getenv("VH_C17_PROBE"); v != "" && os.Getenv(envCase) == "" && os.Getenv(envOCC) == "" {
+	if v := os.Getenv("VH_C17_PROBE"); v != "" && os.Getenv(envCase) == "" && os.Getenv(envOCC) == "" && os.Getenv(envChild) == "" {
 		obs, err := runImpl(v)
 		fmt.Println(obs, err)
 		os.Exit(0)
 	}
-	if os.Getenv(envCase) != "" || os.Getenv(envOCC) != "" {
+	if os.Getenv(envCase) != "" || os.Getenv(envOCC) != "" || os.Getenv(envChild) != "" {
 		return // child modes are dispatched by runner.go's init
 	}
 	fw.Register(&fw.Property{
@@ -404,19 +496,22 @@ func init() {
 			"agent and REAL children (sh scripts that exit 0 / 3, die of a signal, fork a helper, cannot be started; for controllable tasks a " +
 			"child that never opens its port and fake OCC devices that exit at DONE / need SIGTERM / ignore TERM+INT / fork / exit 3). Schedules: every " +
 			"sequence of up to 2 (thorough 3) steps from {tick,start,stop,conf,trigger,kill,await} per basic/hook behaviour and up to 1 (thorough 2) " +
-			"per controllable behaviour and for a task without data, plus random ones of 3..7 (thorough 3..9) steps; schedules that are slow by construction " +
-			"(escalation timers) are capped at 6 (thorough 80) per run; observed: results of every step, UPDATE/MESSAGE calls in order, panic site, reproduced hang, survivors in the " +
-			"process groups, signals received by the device. non-trivial = >=2 steps, a child was spawned and a stop/kill/await follows; distinct by input text",
+			"per controllable behaviour and for a task without data, plus random ones of 3..7 (thorough 3..9) steps. Every behaviour x every such schedule is run in " +
+			"every COMMAND SHAPE (tag shape=): through /bin/sh -c without / with TaskCommandInfo.Arguments (sh, sha), exec'd directly without / with arguments (ex: the vh " +
+			"binary in child mode, exa: /bin/sh -c <script> resp. the device binary with arguments; a command that cannot be started: ex, exa only); random schedules draw " +
+			"their shape (thorough: the 3-step level in the shapes sh and ex, 2 steps in sha and exa); the model does not see the shape. Schedules that are slow by construction " +
+			"(escalation timers) are capped at 6 (thorough 80) per run in the first shape and 3 (thorough 30) in each other one; observed: results of every step, UPDATE/MESSAGE calls in order, panic site, reproduced hang, survivors (live processes that are an announced child, are in an " +
+			"announced child's process group, or inherited the task's environment — no assumption that a child leads its own group), signals received by the device. non-trivial = >=2 steps, a child was spawned and a stop/kill/await follows; distinct by input text",
 		Shrink: shrinkCands,
 		// wider search after a break: the quick stream under another seed (every case costs a process and >= 0.2 s)
 		Search:  func(r *rng.R) []fw.Case { return generate("quick", r) },
-		Workers: 8,
+		Workers: 12,
 		Setup: func(work string) error {
 			workDir = work
 			return os.MkdirAll(work, 0o755)
 		},
 		TrustedBase: []string{
-			"harness/props/c17 (fake Mesos agent = decoder+sender, child scripts, fake OCC device, /proc scan for survivors, panic-trace parsing)",
+			"harness/props/c17 (fake Mesos agent = decoder+sender, child scripts and the vh binary in child mode, fake OCC device, /proc scan for survivors by pid / process group / inherited environment, panic-trace parsing)",
 			"/repo/executor/verif_hook_c17.go (builds internalState as Run does and calls the real eventLoop)",
 			"Linux process/signal semantics, /bin/sh (dash)",
 		},
